@@ -92,6 +92,9 @@ def _classes():
         Case("UniformGrid", lambda: UniformGrid(np.array([1.0, 0.0, -1.0]),
                                                 np.array([[1.0, 0, 0], [1.0, 2.0, 0], [0, 1.0, 1.0]]),
                                                 np.array([2, 3, 2]), weight="Rectangle"), True, False),
+        Case("Tensor1DGrids2D", lambda: Tensor1DGrids(od([0, 1, 3]), od([0, 2, 5])), True, False),
+        Case("UniformGrid2D", lambda: UniformGrid(np.array([1.0, -1.0]), np.array([[1.0, 0.0], [1.0, 2.0]]),
+                                                  np.array([3, 2]), weight="Rectangle"), True, False),
         Case("PeriodicGrid0", lambda: PeriodicGrid(p3.copy(), w5.copy()), True, True,
              extra=lambda g: np.asarray(g.realvecs).tolist(), inf_ok=False),
         Case("PeriodicGrid1D0", lambda: PeriodicGrid(p1.copy(), w5.copy()), True, True, dim1=True,
